@@ -213,6 +213,21 @@ theorem deleteRes_res_from (s : Store) (g k n p : String) (lo po : Bool) (st : O
   | refused r v hg hin hv hne => exact admitDelete_res_from s r (getR_some hg).1 p lo po st r' hr'
   | admitted r hg hin hv => exact admitDelete_res_from s r (getR_some hg).1 p lo po st r' (mem_dropR.mp hr').1
 
+theorem touchRes_res_from (s : Store) (g k n : String) (l : Labels) :
+    ∀ r' ∈ (s.touchRes g k n l).1.res,
+      r' ∈ s.res ∨ ∃ x ∈ s.res, x.group = r'.group ∧ x.kind = r'.kind ∧ x.name = r'.name ∧ x.inUse = r'.inUse := by
+  unfold Store.touchRes
+  split
+  · exact fun r' h => .inl h
+  · next r hg =>
+    split
+    · exact fun r' h => .inl h
+    · intro r' hr'
+      rw [bump_res] at hr'
+      rcases mem_putR.mp hr' with ⟨h, _⟩ | ⟨rfl, _⟩
+      · exact .inl h
+      · exact .inr ⟨r, (getR_some hg).1, rfl, rfl, rfl, rfl⟩
+
 theorem gcRes_res_from (s : Store) (g k n : String) :
     ∀ r' ∈ (s.gcRes g k n).1.res,
       r' ∈ s.res ∨ ∃ x ∈ s.res, x.group = r'.group ∧ x.kind = r'.kind ∧ x.name = r'.name ∧ x.inUse = r'.inUse := by
